@@ -56,6 +56,8 @@ def meek_config(rng, allow_rational=False, rule=None):
         o['omega'] = rng.randint(1, prec if o.get('arithmetic') == 'fixed' else max(1, min(prec, 12)))
     if rng.random() < 0.35:
         o['defeat_batch'] = 'none'
+    if rng.random() < 0.25 and o.get('arithmetic') in ('fixed', 'guarded'):
+        o['display'] = rng.randint(0, o['precision'] + o.get('guard', 0) + 1)      # presentation only: must not touch the count
     return o
 
 
